@@ -1,6 +1,7 @@
 package main
 
 import (
+	"encoding/base64"
 	"encoding/hex"
 	"fmt"
 	"net/url"
@@ -17,11 +18,43 @@ func c03StripOp(op string) (tag string, streams string) {
 
 var c03PN = []c02Field{{"inner", "payload", false}}
 
+var c03Boundary = []string{"", "0", "-0", "+1", "-1", "1", "9223372036854775807", "9223372036854775808", "-9223372036854775808", "-9223372036854775809",
+	"18446744073709551615", "18446744073709551616", "99999999999999999999", "999999999999999999999", "1234567890123456789",
+	"9999999999999999999999999999999999999999", "1e3", "0x10", " 1", "1 ", "1.5", "NaN", "true", "\xff\xfe", "\x00", strings.Repeat("9", 400),
+	strings.Repeat("z", 4000), "EXCEPTION", "1", "2", "٣"}
+
 // c03Unexpected: structurally valid requests with shapes the happy path never sends.
 func c03Unexpected(x *c02G) (tag, streams string) {
 	r := x.g.Rng
 	um := Pick(r, c02Unaries)
 	sm := Pick(r, c02StreamsM)
+	if r.Chance(25) {
+		// boundary VALUES for every protocol metadata key the server reads: numerals of 19/20/21/40
+		// digits around 2^63 and 2^64, signs, empty, huge, non-UTF-8
+		m := Pick(r, []c02Method{um, sm})
+		key := Pick(r, []string{"vgi_rpc.protocol_version", "vgi_rpc.protocol_version", "vgi_rpc.request_version", "vgi_rpc.log_level",
+			"vgi_rpc.request_id", "vgi_rpc.method", "vgi_rpc.shm_offset", "vgi_rpc.shm_length", "vgi_rpc.shm_segment_size", "vgi_rpc.shm_segment_name",
+			"vgi_rpc.location", "vgi_rpc.location.sha256", "vgi_rpc.cancel", "vgi_rpc.stream_state#b64", "vgi_rpc.call_state#b64", "traceparent"})
+		val := Pick(r, c03Boundary)
+		if key == "vgi_rpc.protocol_version" && r.Bool() {
+			val = Pick(r, []string{val + ".0.0", "1." + val + ".0", "1.2." + val, val + "." + val + "." + val})
+		}
+		meta := x.meta(m.name, true)
+		if r.Bool() {
+			meta = append([][2]string{{key, val}}, meta...) // first: wins for GetValue lookups
+		} else {
+			meta = append(meta, [2]string{key, val}) // last: wins in the metadata map
+		}
+		rows := 1
+		if strings.HasPrefix(key, "vgi_rpc.shm") || key == "vgi_rpc.location" {
+			rows = Pick(r, []int{0, 1})
+		}
+		s := x.reqStream(m.params, rows, []int64{0, 2, 99}[:len(m.params)], meta)
+		if m.kind != "unary" && r.Chance(70) {
+			s += " " + x.ticks(r.Intn(3), -1)
+		}
+		return "boundary-metadata", s
+	}
 	switch r.Intn(7) {
 	case 0, 1: // embedded payload of n1: valid, foreign inner type, garbage, empty, no row
 		v := Pick(r, []int64{0, 1, 2, 7, -1, -1, -2, -3, -4, -4})
@@ -106,11 +139,13 @@ func c03Gen(g *Gen) {
 		if r.Chance(35) {
 			// widened HTTP family: every route, authenticators installed, hostile headers;
 			// genuine-but-foreign tokens; clock histories of the proof gate
-			switch k := r.Intn(10); {
+			switch k := r.Intn(12); {
 			case k < 2:
 				g.Case(x.wideSticky()...)
 			case k < 4:
 				g.Case(x.wideProofHistory()...)
+			case k < 6:
+				g.Case(x.widePkceCookie())
 			default:
 				g.Case(x.wideLine())
 			}
@@ -466,4 +501,66 @@ func (x *c02G) wideProofHistory() []string {
 		lines = append(lines, line)
 	}
 	return lines
+}
+
+func c03B64(s string) string {
+	return strings.TrimRight(base64.URLEncoding.EncodeToString([]byte(s)), "=")
+}
+
+// widePkceCookie: the browser-login (OAuth PKCE) pages with JWT-shaped `_vgi_auth` / session cookies
+// whose claim JSON is hostile, with and without a valid `_vgi_return_to`.
+func (x *c02G) widePkceCookie() string {
+	r := x.g.Rng
+	cfg := Pick(r, []string{"xfcc", "bearer", "proof", "chain", "pem", "xfccv"})
+	hdr := Pick(r, []string{`{"alg":"none"}`, `{"alg":"RS256","typ":"JWT"}`, `{"alg":"HS256","kid":5}`, `{}`, `[]`, `nul`, ``})
+	claim := func() string {
+		v := Pick(r, []string{`"1700000000"`, `null`, `true`, `false`, `{}`, `[]`, `[1]`, `{"a":1}`, `1700000000`, `4102444800`, `1.5`, `-1`, `0`,
+			`1e30`, `1e400`, `99999999999999999999`, `-99999999999999999999`, `""`, `"x"`, `[[[[[[[[[[1]]]]]]]]]]`})
+		return v
+	}
+	payload := Pick(r, []string{
+		`{"exp":` + claim() + `}`,
+		`{"exp":` + claim() + `,"iat":` + claim() + `,"sub":` + claim() + `,"aud":` + claim() + `}`,
+		`{"exp":` + claim() + `,"email":` + claim() + `,"name":` + claim() + `}`,
+		`{"sub":"alice","exp":` + claim() + `,"nested":{"exp":` + claim() + `}}`,
+		`{"exp":` + claim(), `[` + claim() + `]`, claim(), `{"exp":1,"exp":` + claim() + `}`, ``, `{"EXP":` + claim() + `}`,
+	})
+	var jwt string
+	switch r.Intn(10) {
+	case 0:
+		jwt = c03B64(hdr) + "." + c03B64(payload) // two segments
+	case 1:
+		jwt = c03B64(hdr) + "." + c03B64(payload) + ".sig.extra"
+	case 2:
+		jwt = c03B64(hdr) + ".%%%." + "sig" // invalid base64
+	case 3:
+		jwt = Pick(r, []string{"..", ".", "a.b.c", "tok1", "", "..."})
+	case 4:
+		jwt = c03B64(hdr) + "." + base64.URLEncoding.EncodeToString([]byte(payload)) + ".c2ln" // padded
+	default:
+		jwt = c03B64(hdr) + "." + c03B64(payload) + "." + Pick(r, []string{"c2ln", "", "AAAA"})
+	}
+	cookie := "_vgi_auth=" + jwt
+	if r.Chance(30) {
+		cookie += "; _vgi_identity=" + Pick(r, []string{c03B64(`{"email":5}`), "x", "%7B"})
+	}
+	if r.Chance(30) {
+		cookie += "; _vgi_oauth_session=" + Pick(r, []string{"AAAA", c03B64(payload), jwt, strings.Repeat("A", 700), "v1." + c03B64("x")})
+	}
+	rt := Pick(r, []string{"", "", "?_vgi_return_to=http%3A%2F%2Flocalhost%3A3000%2Fapp", "?_vgi_return_to=http%3A%2F%2Flocalhost%3A3000%2Fapp",
+		"?_vgi_return_to=https%3A%2F%2Fcupola.query-farm.services%2Fx", "?_vgi_return_to=http%3A%2F%2F127.0.0.1%2F", "?_vgi_return_to=https%3A%2F%2Fevil.example%2F",
+		"?_vgi_return_to=%zz", "?_vgi_return_to=//x", "?_vgi_return_to=http%3A%2F%2F%5B%3A%3A1%5D%3A1%2F"})
+	target := Pick(r, []string{"/", "/", "/describe", "/describe", "/_oauth/callback?code=abc&state=xyz", "/_oauth/logout", "/u3", "/nope"})
+	if strings.Contains(target, "?") {
+		rt = strings.Replace(rt, "?", "&", 1)
+	}
+	h := []string{"Cookie", cookie}
+	if r.Chance(30) {
+		h = append(h, "Accept", Pick(r, []string{"text/html", "*/*", "application/json"}))
+	}
+	if r.Chance(20) {
+		h = append(h, c03CredHeaders(cfg)...)
+	}
+	verb := Pick(r, []string{"GET", "GET", "GET", "HEAD", "POST"})
+	return fmt.Sprintf("hx %s %s x%s %s - pkce-cookie body", cfg, verb, hex.EncodeToString([]byte(target+rt)), c03Hdrs(h...))
 }
